@@ -734,15 +734,24 @@ impl<'a> Run<'a> {
                 }
             }
             Rq::Add { pname, code, parsing } => {
-                if ok {
-                    // learn account (temporary user) and problem name from what the request inserted
+                // the session a temporary user is given exists from the moment the handler logged
+                // it in, whatever the request's final status (409 on the problem name, 500 on the
+                // problem insert): learn the account from what the request inserted
+                if matches!(resp.cookie, Some(Some(_))) {
                     let ins = self.inserted_by.get(tag).cloned().unwrap_or_default();
                     for (coll, _, d) in &ins {
                         if coll == crate::config::USER_COLL {
                             self.cl[c].acct = doc_str(d, "username");
                             self.stats.inc("temporary_accounts_created");
+                            if !ok {
+                                self.stats.inc("probe_temporary_session_from_refused_add");
+                            }
                         }
                     }
+                }
+                if ok {
+                    // learn the problem name from what the request inserted
+                    let ins = self.inserted_by.get(tag).cloned().unwrap_or_default();
                     let prob = ins.iter().find(|(coll, _, _)| coll == crate::config::ADF_COLL);
                     let (real_name, doc_id) = match prob {
                         Some((_, id, d)) => (doc_str(d, "name").unwrap_or_else(|| pname.clone()), Some(*id)),
